@@ -33,10 +33,10 @@ func NewARP(opt int) (*ARP, error) {
 	a.HWLength = 6
 	a.ProtoLength = 4
 	a.Operation = uint16(opt)
-	a.HWSrc = net.HardwareAddr(make([]byte, 6))
-	a.IPSrc = net.IP(make([]byte, 4))
-	a.HWDst = net.HardwareAddr(make([]byte, 6))
-	a.IPDst = net.IP(make([]byte, 4))
+	a.HWSrc = net.HardwareAddr(make([]byte, a.HWLength))
+	a.IPSrc = net.IP(make([]byte, a.ProtoLength))
+	a.HWDst = net.HardwareAddr(make([]byte, a.HWLength))
+	a.IPDst = net.IP(make([]byte, a.ProtoLength))
 	return a, nil
 }
 
@@ -81,19 +81,19 @@ func (a *ARP) UnmarshalBinary(data []byte) error {
 		return errors.New("The []byte is too short to unmarshal a full ARP message.")
 	}
 
-	a.HWSrc = net.HardwareAddr(make([]byte, 6))
+	a.HWSrc = net.HardwareAddr(make([]byte, a.HWLength))
 	copy(a.HWSrc, data[n:n+int(a.HWLength)])
 	n += int(a.HWLength)
 
-	a.IPSrc = net.IP(make([]byte, 4))
+	a.IPSrc = net.IP(make([]byte, a.ProtoLength))
 	copy(a.IPSrc, data[n:n+int(a.ProtoLength)])
 	n += int(a.ProtoLength)
 
-	a.HWDst = net.HardwareAddr(make([]byte, 6))
+	a.HWDst = net.HardwareAddr(make([]byte, a.HWLength))
 	copy(a.HWDst, data[n:n+int(a.HWLength)])
 	n += int(a.HWLength)
 
-	a.IPDst = net.IP(make([]byte, 4))
+	a.IPDst = net.IP(make([]byte, a.ProtoLength))
 	copy(a.IPDst, data[n:n+int(a.ProtoLength)])
 
 	return nil
